@@ -100,11 +100,16 @@ def ext_binsize(case, ctx):
     import cooler
     from cooler.util import get_binsize, get_chromsizes
     table = case["table"]
-    bins = gen.bins_frame(table)
-    if case.get("categorical"):
+    nch = 1 + max(c for c, _, _ in table)
+    # chromosome names whose lexicographic order is NOT the order of the table (c2, c10, c1, ...), or the usual a, b, c
+    names = ["c2", "c10", "c1", "c3", "c0"] if case.get("names") == "unsorted" else NAMES
+    bins = gen.bins_frame(table, names)
+    cat = case.get("categorical")
+    if cat in (True, "ordered"):
         import pandas as pd
-        nch = 1 + max(c for c, _, _ in table)
-        bins["chrom"] = pd.Categorical(bins["chrom"], categories=NAMES[:nch], ordered=True)
+        bins["chrom"] = pd.Categorical(bins["chrom"], categories=names[:nch], ordered=True)
+    elif cat == "lexical":
+        bins["chrom"] = bins["chrom"].astype("category")     # unordered, categories in lexicographic order (as read_csv gives)
     ik = case.get("index", "default")
     if ik == "offset":                                  # e.g. leading chromosomes filtered out of a larger table
         bins.index = bins.index + 7
@@ -120,7 +125,8 @@ def ext_binsize(case, ctx):
     c = cooler.Cooler(path)
     info = c.info
     return {"binsize": _none0(bs), "chromsizes": [int(x) for x in cs.values],
-            "chromnames_ok": list(cs.index) == NAMES[:len(cs)],
+            "chromnames_ok": [str(x) for x in cs.index] == names[:len(cs)] and len(cs) == nch
+            and [str(x) for x in c.chromnames] == names[:nch],
             "cooler_binsize": _none0(c.binsize), "bintype": str(info["bin-type"]),
             "cooler_chromsizes": [int(x) for x in c.chromsizes.values]}
 
